@@ -371,6 +371,7 @@ func (lcp *LCPStateMachine) receiveConfigureRequest(pkt *LCPPacket) error {
 	case LCPStateAckRcvd:
 		if respCode == LCPCodeConfigAck {
 			// This-Layer-Up
+			lcp.stopTimer()
 			lcp.setState(LCPStateOpened)
 		}
 	case LCPStateAckSent:
@@ -525,8 +526,8 @@ func (lcp *LCPStateMachine) receiveConfigureAck(pkt *LCPPacket) error {
 		return nil
 	}
 
-	lcp.stopTimer()
-
+	// The restart timer keeps running while the automaton waits for the peer (RFC 1661 4.4);
+	// it is stopped only on entering a state without a timer
 	switch lcp.state {
 	case LCPStateClosed, LCPStateStopped:
 		lcp.sendTerminateAck(pkt.Identifier)
@@ -538,6 +539,7 @@ func (lcp *LCPStateMachine) receiveConfigureAck(pkt *LCPPacket) error {
 		lcp.setState(LCPStateReqSent)
 	case LCPStateAckSent:
 		lcp.initializeRestartCount()
+		lcp.stopTimer()
 		// This-Layer-Up
 		lcp.setState(LCPStateOpened)
 	case LCPStateOpened:
@@ -554,8 +556,6 @@ func (lcp *LCPStateMachine) receiveConfigureNak(pkt *LCPPacket) error {
 	if pkt.Identifier != lcp.lastIdentifier {
 		return nil
 	}
-
-	lcp.stopTimer()
 
 	// Process NAK options and update our config
 	opts, err := ParseLCPOptions(pkt.Data)
@@ -623,8 +623,6 @@ func (lcp *LCPStateMachine) receiveConfigureReject(pkt *LCPPacket) error {
 		return nil
 	}
 
-	lcp.stopTimer()
-
 	// Process rejected options and remove them from our config
 	opts, err := ParseLCPOptions(pkt.Data)
 	if err != nil {
@@ -663,17 +661,18 @@ func (lcp *LCPStateMachine) receiveConfigureReject(pkt *LCPPacket) error {
 
 // receiveTerminateRequest handles incoming Terminate-Request
 func (lcp *LCPStateMachine) receiveTerminateRequest(pkt *LCPPacket) error {
-	lcp.stopTimer()
-
 	switch lcp.state {
 	case LCPStateClosed, LCPStateStopped, LCPStateClosing, LCPStateStopping:
 		lcp.sendTerminateAck(pkt.Identifier)
 	case LCPStateReqSent, LCPStateAckRcvd, LCPStateAckSent:
+		lcp.stopTimer()
 		lcp.sendTerminateAck(pkt.Identifier)
 		lcp.setState(LCPStateStopped)
 	case LCPStateOpened:
 		// This-Layer-Down
+		// Zero-Restart-Count: wait one restart period, then timeout finishes in Stopped
 		lcp.zeroRestartCount()
+		lcp.startTimer()
 		lcp.sendTerminateAck(pkt.Identifier)
 		lcp.setState(LCPStateStopping)
 	}
@@ -683,14 +682,14 @@ func (lcp *LCPStateMachine) receiveTerminateRequest(pkt *LCPPacket) error {
 
 // receiveTerminateAck handles incoming Terminate-Ack
 func (lcp *LCPStateMachine) receiveTerminateAck(pkt *LCPPacket) error {
-	lcp.stopTimer()
-
 	switch lcp.state {
 	case LCPStateClosing:
 		// This-Layer-Finished
+		lcp.stopTimer()
 		lcp.setState(LCPStateClosed)
 	case LCPStateStopping:
 		// This-Layer-Finished
+		lcp.stopTimer()
 		lcp.setState(LCPStateStopped)
 	case LCPStateAckRcvd:
 		lcp.setState(LCPStateReqSent)
